@@ -950,9 +950,6 @@ Proof.
       rewrite (find_output_unique t o ts c _ Hwf Hin Hc eq_refl). left. reflexivity.
 Qed.
 
-Definition owned_nodes (t : topo) : list anode :=
-  flat_map (fun rt => flat_map tnodes (snd rt)) (filter owned_root (t_forest t)).
-
 Lemma collect_raw_iff t x :
   wf t -> ~ defect t -> (In x (collect_raw t) <-> In x (owned_nodes t)).
 Proof.
@@ -1002,4 +999,128 @@ Proof.
     destruct (find_output (t_forest t) c p) as [[[o|] ts]|]; simpl; rewrite ?app_nil_r; reflexivity.
   - rewrite (collect_adapters_perm t Hwf Hnd). unfold owned_nodes. rewrite flat_map_flat_map.
     reflexivity.
+Qed.
+
+(* ========================================================================= *)
+(** * Several [connect()] attempts on one composition *)
+
+Lemma dedupe_ids_in l : forall seen x,
+  In x (dedupe_ids seen l) <-> In x l /\ ~ In x seen.
+Proof.
+  induction l as [|y r IH]; simpl; intros seen x; [tauto|].
+  destruct (existsb (Nat.eqb y) seen) eqn:E.
+  - rewrite IH. apply mem_spec in E. split; [tauto|].
+    intros [[<-|H] Hn]; [contradiction|tauto].
+  - assert (Hy : ~ In y seen) by (intros H; apply mem_spec in H; congruence).
+    simpl. rewrite IH. simpl. split.
+    + intros [<-|[H Hn]]; [tauto|]. split; [tauto|]. intros Hs. apply Hn. right. assumption.
+    + intros [[<-|H] Hn]; [left; reflexivity|].
+      destruct (Nat.eq_dec y x) as [->|Hne]; [left; reflexivity|].
+      right. split; [assumption|]. intros [H'|H']; [contradiction|contradiction].
+Qed.
+
+Lemma dedupe_ids_nodup l : forall seen, NoDup (dedupe_ids seen l).
+Proof.
+  induction l as [|y r IH]; simpl; intros seen; [constructor|].
+  destruct (existsb (Nat.eqb y) seen); [apply IH|].
+  constructor; [|apply IH]. intros H. apply dedupe_ids_in in H as [_ H]. apply H. left. reflexivity.
+Qed.
+
+Lemma owned_nodes_all t n : In n (owned_nodes t) -> In n (all_nodes (t_forest t)).
+Proof.
+  unfold owned_nodes, all_nodes. rewrite !in_flat_map. intros [rt [Hrt Hn]].
+  exists rt. apply filter_In in Hrt. tauto.
+Qed.
+
+Lemma owned_nodes_nodup t : wf t -> NoDup (map nid (owned_nodes t)).
+Proof. intros Hwf. unfold owned_nodes. apply NoDup_map_flat_filter. apply Hwf. Qed.
+
+Lemma find_node_owned t n :
+  wf t -> In n (owned_nodes t) -> find_node (t_forest t) (nid n) = Some n.
+Proof.
+  intros Hwf Hn. apply owned_nodes_all in Hn.
+  destruct (find_node (t_forest t) (nid n)) as [n'|] eqn:E; unfold find_node in E.
+  - apply find_some in E as [Hin He]. apply Nat.eqb_eq in He. f_equal.
+    apply (NoDup_map_inj nid (all_nodes (t_forest t))); auto. apply Hwf.
+  - pose proof (find_none _ _ E n Hn) as H. simpl in H. unfold nid in H.
+    rewrite Nat.eqb_refl in H. discriminate.
+Qed.
+
+Lemma collect_ids_perm prev t :
+  wf t -> ~ defect t ->
+  (forall id, In id prev -> In id (map nid (owned_nodes t))) ->
+  Permutation (collect_ids prev t) (map nid (owned_nodes t)).
+Proof.
+  intros Hwf Hnd Hprev. apply NoDup_Permutation.
+  - apply dedupe_ids_nodup.
+  - apply owned_nodes_nodup; assumption.
+  - intros id. unfold collect_ids. rewrite dedupe_ids_in, in_app_iff. split.
+    + intros [[H|H] _]; [auto|].
+      apply in_map_iff in H as [x [<- Hx]]. apply (in_map nid).
+      apply collect_raw_iff; assumption.
+    + intros H. split; [|intros []]. right.
+      apply in_map_iff in H as [x [<- Hx]]. apply (in_map (fun n => a_id (fst n))).
+      apply collect_raw_iff; assumption.
+Qed.
+
+Lemma flat_map_map {A B C : Type} (f : B -> list C) (g : A -> B) l :
+  flat_map f (map g l) = flat_map (fun x => f (g x)) l.
+Proof. induction l as [|x r IH]; simpl; [reflexivity|]. rewrite IH. reflexivity. Qed.
+
+Lemma validate_ok_composition t : validate t = VOk -> validate_composition t = (check_events t, RDone).
+Proof.
+  unfold validate, validate_composition, check_events. intros H.
+  pose proof (run_checks_events_ok (all_checks t)) as Hev.
+  destruct (run_checks (all_checks t)) as [ev [fl|]]; simpl in *; [discriminate|].
+  rewrite Hev; reflexivity.
+Qed.
+
+(** A composition that is not connected yet and remembers only adapters that are (still) below
+    its outputs: a successful [connect()] reports exactly the created links - whatever earlier,
+    rejected attempts have left behind. *)
+Theorem retry_links_exact s t :
+  s_connected s = false -> wf t -> validate t = VOk ->
+  (forall id, In id (s_adapters s) -> In id (map nid (owned_nodes t))) ->
+  forall s' ev r, connect_st s t = (s', (ev, r)) ->
+    r = RDone /\ s_connected s' = true
+    /\ Permutation (metadata_links_of s' t) (created_links t).
+Proof.
+  intros Hs Hwf Hok Hprev s' ev r. unfold connect_st. rewrite Hs.
+  rewrite (validate_ok_composition t Hok). intros [= <- <- <-].
+  split; [reflexivity|]. split; [reflexivity|].
+  pose proof (validate_ok_no_defect t Hwf Hok) as Hnd.
+  rewrite <- (links_exact t Hwf Hok).
+  unfold metadata_links_of, metadata_links, direct_links. simpl.
+  apply Permutation_app_head.
+  rewrite (collect_ids_perm (s_adapters s) t Hwf Hnd Hprev).
+  rewrite (collect_adapters_perm t Hwf Hnd).
+  rewrite flat_map_map. apply Permutation_flat_map_pointwise.
+  intros n Hn. rewrite (find_node_owned t n Hwf Hn). reflexivity.
+Qed.
+
+(** A rejected attempt changes nothing but the remembered adapter set, and that only by adapters
+    found on the links of the rejected wiring. *)
+Theorem failed_attempt_clean s t s' ev e :
+  connect_st s t = (s', (ev, RRaised e)) ->
+  s_connected s' = s_connected s
+  /\ (forall x, In x ev -> is_exchange x = false)
+  /\ (s_connected s = false ->
+      e = ConnectError /\ validate t <> VOk
+      /\ forall id, In id (s_adapters s') ->
+           In id (s_adapters s) \/ In id (map nid (collect_raw t))).
+Proof.
+  unfold connect_st, validate_composition, validate.
+  destruct (s_connected s) eqn:Hs.
+  - intros [= <- <- <-]. rewrite Hs. split; [reflexivity|]. split; [intros x []|discriminate].
+  - pose proof (run_checks_no_exchange (all_checks t)) as Hne.
+    destruct (run_checks (all_checks t)) as [ev0 [fl|]]; simpl in *; [|discriminate].
+    intros [= <- <- <-]. simpl. split; [reflexivity|]. split; [exact Hne|]. intros _.
+    split; [reflexivity|]. split; [discriminate|].
+    intros id H. unfold collect_ids in H. apply dedupe_ids_in in H as [H _].
+    apply in_app_or in H. exact H.
+Qed.
+
+Lemma connect_st_fresh t : snd (connect_st fresh t) = connect false t.
+Proof.
+  unfold connect_st, connect. simpl. destruct (validate_composition t) as [ev [|e]]; reflexivity.
 Qed.
